@@ -11,6 +11,7 @@ import DtailModel.Model.Aggregate
 import DtailModel.Lemmas.AggAlgebra
 import DtailModel.Lemmas.GenAggregate
 import DtailModel.Lemmas.AggPipeline
+import DtailModel.Lemmas.ResultOrder
 namespace Dtail.C05
 open Dtail
 
@@ -190,5 +191,105 @@ theorem C05_operation_codes_are_the_sources :
     GenAgg.opCode .max = Gen.Mapr.Max ∧ GenAgg.opCode .last = Gen.Mapr.Last ∧ GenAgg.opCode .avg = Gen.Mapr.Avg ∧
     GenAgg.opCode .len = Gen.Mapr.Len :=
   GenAgg.opCode_is_source_iota.2
+
+/-! ### The final report: rows, `order by` / `rorder by`, `limit` -/
+
+/-- the global group set of the distributed run and the central evaluation hold the same groups
+    (as lists: permutations of each other, no group key twice) -/
+theorem C05_same_groups (q : Query) (parts : List (List Fields)) :
+    (distributed q.sel q.groupBy parts).Perm (central q.sel q.groupBy parts.flatten) :=
+  ResultOrder.distributed_perm_central q.sel q.groupBy parts
+
+/-- **ordering and limit, whatever the ties**: with an `order by` / `rorder by` clause the final
+    report of the distributed run shows the same sequence of order keys as the report of one
+    central evaluation — for every query, table and partition, every limit, and every order in
+    which the groups reach the sort (Go ranges over a map: `g'` is any permutation). -/
+theorem C05_report_order_keys (q : Query) (parts : List (List Fields)) (ho : q.orderBy ≠ [])
+    (g' : Groups) (hg : g'.Perm (distributed q.sel q.groupBy parts)) :
+    (report q g').map (·.orderBy) = (report q (central q.sel q.groupBy parts.flatten)).map (·.orderBy) := by
+  unfold report
+  rw [ResultOrder.limitRows_map, ResultOrder.limitRows_map]
+  congr 1
+  exact ResultOrder.orderRows_keys q _ _ ((hg.trans (C05_same_groups q parts)).map _) ho
+
+/-- **ordering and limit**: when no two groups of the central evaluation share an order key, the
+    final report of the distributed run is the report of the central evaluation, row for row —
+    the only freedom the property leaves is the choice among tied rows. -/
+theorem C05_report (q : Query) (parts : List (List Fields)) (ho : q.orderBy ≠ [])
+    (g' : Groups) (hg : g'.Perm (distributed q.sel q.groupBy parts))
+    (hties : ∀ x ∈ central q.sel q.groupBy parts.flatten, ∀ y ∈ central q.sel q.groupBy parts.flatten,
+      (rowOf q x).orderBy = (rowOf q y).orderBy → x = y) :
+    report q g' = report q (central q.sel q.groupBy parts.flatten) := by
+  unfold report
+  congr 1
+  have hp : (g'.map (rowOf q)).Perm ((central q.sel q.groupBy parts.flatten).map (rowOf q)) :=
+    (hg.trans (C05_same_groups q parts)).map _
+  refine (ResultOrder.orderRows_eq q _ _ hp.symm ho ?_).symm
+  intro x hx y hy hxy
+  obtain ⟨x', hx', rfl⟩ := List.mem_map.1 hx
+  obtain ⟨y', hy', rfl⟩ := List.mem_map.1 hy
+  rw [hties x' hx' y' hy' hxy]
+
+/-- without an ordering clause (and without a limit) the report holds the same rows in some order -/
+theorem C05_report_unordered (q : Query) (parts : List (List Fields)) (ho : q.orderBy = []) (hl : q.limit < 0)
+    (g' : Groups) (hg : g'.Perm (distributed q.sel q.groupBy parts)) :
+    (report q g').Perm (report q (central q.sel q.groupBy parts.flatten)) := by
+  unfold report limitRows orderRows
+  simp only [ho, hl, if_true]
+  exact (hg.trans (C05_same_groups q parts)).map _
+
+/-- the report is sorted: descending for `order by`, ascending for `rorder by` -/
+theorem C05_report_sorted (q : Query) (g : Groups) (ho : q.orderBy ≠ []) :
+    (report q g).Pairwise fun a b => if q.reverse then a.orderBy ≤ b.orderBy else b.orderBy ≤ a.orderBy := by
+  have hs := ResultOrder.orderRows_sorted q (g.map (rowOf q)) ho
+  unfold report limitRows
+  by_cases hl : q.limit < 0
+  · simp only [hl, if_true]; exact hs
+  · simp only [hl, if_false]; exact hs.sublist (List.take_sublist _ _)
+
+/-- the limit keeps the top of the order: no row left out would sort before a row shown -/
+theorem C05_report_limit_keeps_top (q : Query) (g : Groups) (ho : q.orderBy ≠ []) (r r' : Row)
+    (hr : r ∈ report q g) (hr' : r' ∈ orderRows q (g.map (rowOf q))) (hout : r' ∉ report q g) :
+    if q.reverse then r.orderBy ≤ r'.orderBy else r'.orderBy ≤ r.orderBy := by
+  have hs := ResultOrder.orderRows_sorted q (g.map (rowOf q)) ho
+  unfold report limitRows at hr hout
+  split at hr
+  · rename_i hl; simp only [hl, if_true] at hout; exact absurd hr' hout
+  · rename_i hl
+    simp only [hl, if_false] at hout
+    have hsplit := List.take_append_drop q.limit.toNat (orderRows q (g.map (rowOf q)))
+    rw [← hsplit] at hs hr'
+    have hd : r' ∈ (orderRows q (g.map (rowOf q))).drop q.limit.toNat := by
+      rcases List.mem_append.1 hr' with h | h
+      · exact absurd h hout
+      · exact h
+    exact (List.pairwise_append.1 hs).2.2 r hr r' hd
+
+/-- the number of rows shown -/
+theorem C05_report_length (q : Query) (g : Groups) :
+    (report q g).length = if q.limit < 0 then g.length else min q.limit.toNat g.length := by
+  have hlen : (orderRows q (g.map (rowOf q))).length = g.length := by
+    simpa using (ResultOrder.orderRows_perm q (g.map (rowOf q))).length_eq
+  unfold report limitRows
+  split
+  · exact hlen
+  · simp [List.length_take, hlen]
+
+/-- rows with the same order key keep the order in which they reached the sort (`sort.SliceStable`) -/
+theorem C05_report_stable (q : Query) (rows : List Row) (k : Rat) (ho : q.orderBy ≠ []) :
+    (orderRows q rows).filter (fun r => decide (r.orderBy = k)) = rows.filter (fun r => decide (r.orderBy = k)) := by
+  unfold orderRows
+  simp only [ho, if_false]
+  split
+  · exact ResultOrder.sortBy_stable ResultOrder.leRat_linear _ rows k
+  · exact ResultOrder.sortBy_stable ResultOrder.geRat_linear _ rows k
+
+/-- the premises are satisfiable and the statement is not empty: two groups, `order by` the count,
+    limit 1, the lines split over two partial results -/
+example :
+    let q : Query := { sel := [⟨b!"x", b!"count(x)", .count⟩], groupBy := [b!"h"], orderBy := b!"count(x)", limit := 1 }
+    let l (h : Bytes) : Fields := [(b!"h", h), (b!"x", b!"1")]
+    (report q (distributed q.sel q.groupBy [[l (b!"a"), l (b!"b")], [l (b!"b")]])).map (fun r => (r.group, r.orderBy))
+      = [(b!"b", 2)] := by decide
 
 end Dtail.C05
